@@ -246,7 +246,8 @@ func artifactsStage(dir string, seed uint64, tier string) error {
 		nref = 520
 	}
 	for i := 0; i < nref; i++ {
-		ref := "ex" + strings.Repeat("r", i%180) + ":t" + strings.Repeat("x", (i/180)*60)
+		extra := i % 376 // a repository is at most 255 characters and a tag 128: one reference cannot reach all 512 residues
+		ref := "ex" + strings.Repeat("r", min(extra, 250)) + ":t" + strings.Repeat("x", extra-min(extra, 250))
 		if i%7 == 3 {
 			ref = "registry.example.com/ns/" + ref
 		}
